@@ -27,6 +27,12 @@ pub fn check(p: Prof, s: &str, l: &mut Local) -> Check {
     if got != Ok(expected.clone()) {
         return Err(Violation::new(case_json(p, s), format!("Ok(\"{}\")", esc(&expected)), fmt_res(&got)));
     }
+    // the same call with an owned argument (spare capacity) must give the same content
+    l.eval();
+    let owned = guard(|| imp_rule_owned(p, RuleKind::Additional, s)).unwrap_or_else(|pn| Ok(format!("panic: {pn}")));
+    if owned != got {
+        return Err(Violation::new(case_json(p, s), format!("owned argument gives the same result: {}", fmt_res(&got)), fmt_res(&owned)));
+    }
     // idempotence
     l.eval();
     let again = match guard(|| imp_rule(p, RuleKind::Additional, &expected)) {
